@@ -28,7 +28,15 @@ static void rank_main (int rank, int size, void *varg)
   memset (recv, 0xEE, (size_t) bs * size + 1);
   for (int k = 0; k < bs; ++k) send[k] = blk_byte (a->dseed, rank, k);
   if (a->mode == 0) {
-    sc_allgather (send, bs, sc_MPI_BYTE, recv, bs, sc_MPI_BYTE, sc_MPI_COMM_WORLD);
+    /* send and receive datatypes of (possibly) different element size and equal total length, chosen from the data
+       seed: the block of bs bytes is described as bs/ts items on the send and bs/tr items on the receive side */
+    static const int tsz[4] = { 1, 2, 4, 8 };
+    sc_MPI_Datatype ty[4];
+    int is = (int) (a->dseed % 4), ir = (int) ((a->dseed / 4) % 4);
+    ty[0] = sc_MPI_BYTE; ty[1] = sc_MPI_SHORT; ty[2] = sc_MPI_INT; ty[3] = sc_MPI_DOUBLE;
+    while (bs % tsz[is] != 0) --is;
+    while (bs % tsz[ir] != 0) --ir;
+    sc_allgather (send, bs / tsz[is], ty[is], recv, bs / tsz[ir], ty[ir], sc_MPI_COMM_WORLD);
   }
   else if (rank >= a->base && rank < a->base + a->g) {
     memcpy (recv + (size_t) rank * bs, send, bs);
